@@ -71,16 +71,36 @@ func TestClientLoop(t *testing.T) {
 		if err != nil {
 			t.Fatal(err)
 		}
-		env, be := w.Env, w.Env.Backend
-		hc := &http.Client{Transport: instTransport{env}}
-		lc, err := client.New("http://log.test"+env.Prefix, hc, jsonclient.Options{PublicKeyDER: env.KeyDER})
-		if err != nil {
-			t.Fatal(err)
+		be := w.Env.Backend
+		// one verifying library client per front end instance of the log (same key, same backend)
+		type side struct {
+			env *ctfeenv.Env
+			lc  *client.LogClient
+			li  *ctutil.LogInfo
 		}
-		li, err := ctutil.NewLogInfo(&loglist3.Log{URL: "https://log.test" + env.Prefix, Key: env.KeyDER, Description: "verif"}, hc)
-		if err != nil {
-			t.Fatal(err)
+		sides := map[string]*side{}
+		sideOf := func(name string) *side {
+			name = feName(name)
+			if sd, ok := sides[name]; ok {
+				return sd
+			}
+			e, err := w.FE(name)
+			if err != nil {
+				t.Fatal(err)
+			}
+			hc := &http.Client{Transport: instTransport{e}}
+			lc, err := client.New("http://log.test"+e.Prefix, hc, jsonclient.Options{PublicKeyDER: e.KeyDER})
+			if err != nil {
+				t.Fatal(err)
+			}
+			li, err := ctutil.NewLogInfo(&loglist3.Log{URL: "https://log.test" + e.Prefix, Key: e.KeyDER, Description: "verif"}, hc)
+			if err != nil {
+				t.Fatal(err)
+			}
+			sides[name] = &side{e, lc, li}
+			return sides[name]
 		}
+		lc, li := sideOf("A").lc, sideOf("A").li
 		ctx := context.Background()
 		scts := map[string]*ct.SignedCertificateTimestamp{}
 		viol := func(fp, what string) {
@@ -96,22 +116,35 @@ func TestClientLoop(t *testing.T) {
 		for _, s := range beh {
 			switch s.Op {
 			case "Tick":
-				w.SetTick(s.Pre.Now + 1)
+				// the backend's clock (s.Pre.Now of the Sequence / Resign steps)
+			case "ClockSet":
+				w.SetTickFE(sideOf(s.Args.Fe).env, s.Args.T)
 			case "Sequence":
 				be.Sequence(s.Args.K, w.Nanos(s.Pre.Now, s.Args.Rem), nil)
 			case "Resign":
 				be.Sequence(0, w.Nanos(s.Pre.Now, s.Args.Rem), nil)
 			case "AddChain":
+				sub := w.Subs[s.Args.Cert]
+				sd := sideOf(s.Args.Fe)
 				if s.Reply.Status != 200 {
+					// a submission that fails after the backend has the leaf (the signer fails, the reply is lost)
+					// still changes the log: it is made directly, the library client (which retries) is not involved
+					if s.Reply.Status != 400 && (s.Args.Fault == "sign" || s.Args.Fault == "lostReply") {
+						disarm := arm(sd.env, s.Args.Fault)
+						code, _, _, _ := sd.env.AddChain(sub.Chain, s.Args.Ep == "add-pre-chain")
+						disarm()
+						if code != s.Reply.Status {
+							viol("addchain-fault-status", fmt.Sprintf("%s while %s: specification %d, implementation %d", s.Args.Ep, faultText(s.Args.Fault), s.Reply.Status, code))
+						}
+					}
 					continue
 				}
-				sub := w.Subs[s.Args.Cert]
 				var sct *ct.SignedCertificateTimestamp
 				var err error
 				if sub.Pre {
-					sct, err = lc.AddPreChain(ctx, asn1Chain(sub))
+					sct, err = sd.lc.AddPreChain(ctx, asn1Chain(sub))
 				} else {
-					sct, err = lc.AddChain(ctx, asn1Chain(sub))
+					sct, err = sd.lc.AddChain(ctx, asn1Chain(sub))
 				}
 				if err != nil {
 					viol("addchain:"+sub.Shape, fmt.Sprintf("the library's client rejects the front end's answer to %s (%s): %v", s.Args.Ep, sub.Shape, err))
